@@ -6,7 +6,7 @@ Require Import EmbossV.Types.Model EmbossV.Types.Proofs EmbossV.Types.ProofsModu
 Lemma typecheck_sound_complete_refuted_lem :
   ~ (forall G m, typecheck_module impl_table G m = MOk <-> well_typed_items G m).
 Proof.
-  intros H. destruct module_refuted_enum_param_lem as [A B]. apply B. apply H. exact A.
+  intros H. destruct module_refuted_expr_lem as [A B]. apply B. apply H. exact A.
 Qed.
 
 Lemma module_doc_iff_lem G m : typecheck_module doc_table G m = MOk <-> well_typed_items G m.
@@ -41,6 +41,9 @@ Qed.
 Lemma doc_no_crash_lem G m k : typecheck_module doc_table G m <> MCrash k.
 Proof. apply typecheck_items_doc_no_crash_lem. Qed.
 
+Lemma impl_no_crash_lem G m k : typecheck_module impl_table G m <> MCrash k.
+Proof. apply typecheck_items_impl_no_crash_lem. Qed.
+
 Lemma ex_env_ok : env_ok ex_G ex_env.
 Proof.
   split; intros i.
@@ -61,3 +64,9 @@ Proof.
   split; [vm_compute; reflexivity|].
   apply typecheck_doc_iff_lem. vm_compute. reflexivity.
 Qed.
+
+(* $present(parameter) is well typed (faee5e1): a parameter is always present *)
+Lemma present_param_lem G r i :
+  has_type G (XFn FPresent [XParam i]) TBool /\ typecheck impl_table G (XFn FPresent [XParam i]) = TOk TBool /\
+  teval r (XFn FPresent [XParam i]) = Some (VBool true).
+Proof. split; [apply typecheck_doc_iff_lem; reflexivity|]. split; reflexivity. Qed.
